@@ -63,6 +63,11 @@ type Conn struct {
 	// Before is called (without the lock) before each complete request frame is processed.
 	// It is the scheduler hook: it may park the calling goroutine.
 	Before func(c *Conn, f *Frame)
+	// BeforeRead is called (without the lock) before a Read that will hand out reply bytes: the
+	// scheduler hook for "the next piece of the reply arrives". ReadCap > 0 limits what one Read
+	// hands out (replies arrive in pieces of at most that many bytes).
+	BeforeRead func(c *Conn)
+	ReadCap    int
 	// Hold, when set, makes Write queue complete frames instead of processing them; Deliver
 	// processes the next queued frame (used by the pool harness).
 	Hold    bool
@@ -310,9 +315,17 @@ func (c *Conn) CutKeeping(k int) {
 
 func (c *Conn) Read(p []byte) (int, error) {
 	c.mu.Lock()
+	if c.BeforeRead != nil && len(c.out) > 0 && len(p) > 0 {
+		c.mu.Unlock()
+		c.BeforeRead(c)
+		c.mu.Lock()
+	}
 	c.Reads++
 	for {
 		if len(c.out) > 0 {
+			if c.ReadCap > 0 && len(p) > c.ReadCap {
+				p = p[:c.ReadCap]
+			}
 			n := copy(p, c.out)
 			c.out = c.out[n:]
 			c.eofReads = 0
